@@ -33,8 +33,8 @@ CATALOGUE OF PANIC SITES of the anchored code and the model construct that stand
   transform/flatten_mangler.go
     populateStruct vs[inputIndex]                                 `populate`: .panic "index out of range"
     populateStruct originalVal.Set(setVal) (*struct into struct)  code repaired (P02): a struct held by value is stored as is, fact F21r; pointer levels:
-                                                                  fact F21g.  The model's `populate` keeps .panic "reflect.Set: *struct into struct"
-                                                                  (conservative: C16_env_value_struct_counterexample)
+                                                                  fact F21g.  The model's `populate` follows (no panic any more; the by-value struct is
+                                                                  rebuilt: C16_env_value_struct_rebuilt)
     populateStruct nestedVal.Set / originalVal.Set (leaf)         — (untyped values); guards: facts F21h, F21i, F21j; finding P11
     isNil(val): val.IsNil()                                       `Val.isNil` (total); kind switch in the code
     GetField: explicit panic (missing dialsfieldpath tag)         — (tag always set by getTag)
@@ -69,11 +69,16 @@ What is proved (for ALL inputs, no bound):
     translator can emit, never panic — for ANY field list;
   * the env source's chain (regenerated: `Facts.chainEnv`) never panics on field lists satisfying the
     decidable predicate `SupportedCfg` (Lemmas/TotalEnv.lean), for every environment, prefix, fuel and
-    scanner token table.  `SupportedCfg` is now: every struct nested behind a pointer; no array of structs
+    scanner token table.  `SupportedCfg` is: every struct nested behind a pointer; no array of structs
     as a bare leaf — nothing else.  Outside `SupportedCfg` each of the model's two remaining panics is
-    reachable (counterexample theorems); neither is a panic of the real code any more: the by-value struct
-    is conservative (the code was repaired, P02; the model's `populate`, shared with C10, keeps the old
-    behaviour) and the array one is a model artefact (see the doc comments).  The shapes of the repaired
+    reachable (counterexample theorems); neither is a panic of the real code: both are artefacts of the
+    model's untyped `nilv` standing for a Go zero value that is not nil.  Since the repair of P02 was
+    followed in the model's `populate` (a struct held by value receives the rebuilt struct itself) the
+    former counterexample — a lone by-value struct with its leaf set — evaluates to the rebuilt value
+    (C16_env_value_struct_rebuilt); what keeps by-value structs outside `SupportedCfg` is that an UNSET
+    by-value struct is `nilv` in the model and meets the recursing alias mangler at a struct type as soon as
+    a sibling field is set (C16_env_value_struct_sibling_model_artefact); the array one is the same kind
+    of artefact (see the doc comments).  `SupportedCfg` is sufficient, not necessary.  The shapes of the repaired
     findings P02 (`Elem()` of a type without element type) and P05 (empty `dialsenv` tag) are inside
     `SupportedCfg` and evaluate to errors (C16_env_unwrapped_leaf_is_error, C16_env_empty_tag_is_error,
     C16_repaired_shapes_supported).
@@ -184,7 +189,8 @@ theorem C16_env_names_total (fuel : Nat) (parse : String → Ty → Outcome Val)
 sources/env/env.go (`envChain` = `Facts.chainEnv`), every field list satisfying the decidable
 `SupportedCfg` (every struct nested behind a pointer, no array of structs as a bare nested leaf —
 nothing else: since the repairs of P05 and P02 an empty `dialsenv` tag and a nested field without
-element type are errors, not panics — see Lemmas/TotalEnv.lean), every
+element type are errors, not panics; both remaining exclusions are artefacts of the model's `nilv`, see
+`C16_env_value_struct_sibling_model_artefact` and Lemmas/TotalEnv.lean), every
 environment, prefix, scanner token table and fuel: the result is a value or an error.  Includes
 user-defined named scalars, slices, maps, sets, user pointers (`**T` on scalars), nested
 pointer-to-structs, slices of structs, alias tags at any depth, scalar / duration / text-unmarshaler
@@ -194,17 +200,31 @@ theorem C16_env_total (fuel : Nat) (toks : TokTable) (pfx : String) (fs : List F
     ∀ c, envValue fuel (envChain fuel toks) pfx fs lookup ≠ .panic c :=
   envValue_noPanic fuel toks pfx fs lookup h
 
-/-- Outside `SupportedCfg` (1): a struct nested BY VALUE below a pointer (`P *struct{ X struct{ A *int } }`,
-variable P_X_A set) reaches the model's `reflect.Set` of a `*struct` into a `struct` in `populate`.
-This panic of the MODEL is conservative: since the repair of P02 populateStruct stores a struct held by
-value instead of setting a pointer on it (fact F21r), so the real code no longer panics; the model's
-`populate` (shared with C10) still has the old behaviour.  Pointerify never produces the shape except
-behind `**T`.  `SupportedCfg` keeps excluding it so that the theorem does not depend on the model being
-updated. -/
-theorem C16_env_value_struct_counterexample :
+/-- The former counterexample (1), now a POSITIVE example: a struct nested BY VALUE below a pointer
+(`P *struct{ X struct{ A *int } }`, variable P_X_A set).  Before the repair of P02 this reached
+`reflect.Set` of a `*struct` into a `struct` in populateStruct / the model's `populate`
+(`.panic "reflect.Set: *struct into struct"`); since the repair (fact F21r) populateStruct stores the rebuilt
+struct itself, the model follows, and the environment source returns the value with `X` rebuilt by value
+inside the allocated `*P`.  With nothing set the value is unset. -/
+theorem C16_env_value_struct_rebuilt :
     envValue 64 (envChain 64 cxToks) "" cxValueStruct (fun s => if s = "P_X_A" then some "1" else none) =
-      .panic "reflect.Set: *struct into struct" :=
-  envValue_panics_value_struct
+      .ok [.ptr (.struct [.struct [.ptr (.i 1)]])] ∧
+    envValue 64 (envChain 64 cxToks) "" cxValueStruct (fun _ => none) = .ok [.nilv] :=
+  ⟨envValue_value_struct_rebuilt, envValue_value_struct_unset⟩
+
+/-- Outside `SupportedCfg` (1) — a MODEL artefact, not an implementation panic: a struct nested by value
+NEXT TO A SIBLING (`P *struct{ B *int; X struct{ A *int } }`).  With `X`'s own leaf set both are rebuilt;
+with only the sibling `B` set, `populate` leaves the unset by-value struct as `nilv` (the model has no
+zero struct; `.nilv` stands for it), and the recursing alias mangler meets that `nilv` at a struct type:
+`ReverseTranslate of a non-struct`.  The real code hands the zero struct through.  This is why
+`SupportedCfg` (`okField`) still excludes structs held by value although `populate` no longer panics on
+them: enlarging it to them would make `C16_env_total` false for the model. -/
+theorem C16_env_value_struct_sibling_model_artefact :
+    envValue 64 (envChain 64 cxToks) "" cxValueStructSibling (fun s => if s = "P_X_A" then some "1" else none) =
+      .ok [.ptr (.struct [.nilv, .struct [.ptr (.i 1)]])] ∧
+    envValue 64 (envChain 64 cxToks) "" cxValueStructSibling (fun s => if s = "P_B" then some "1" else none) =
+      .panic "ReverseTranslate of a non-struct" :=
+  ⟨envValue_value_struct_sibling_rebuilt, envValue_panics_value_struct_sibling⟩
 
 /-- `P **struct{ A int }` with P_A set: since the repair of P02 the string-cast mangler returns an error
 for a field type without element type (before: reflect panicked in Type.Elem); the model follows; the
@@ -234,10 +254,12 @@ theorem C16_env_array_of_structs_model_artefact :
   envValue_panics_array_of_structs
 
 /-- Both counterexample types are indeed outside `SupportedCfg` (the predicate is not vacuous the other
-way: it rejects exactly these shapes). -/
+way: it rejects these shapes); so is the lone by-value struct of `C16_env_value_struct_rebuilt`, on which
+the model does not panic: `SupportedCfg` is sufficient, not necessary. -/
 theorem C16_counterexamples_unsupported :
-    SupportedCfg 64 cxValueStruct = false ∧ SupportedCfg 64 cxArrayOfStructs = false :=
-  counterexamples_unsupported
+    SupportedCfg 64 cxValueStructSibling = false ∧ SupportedCfg 64 cxArrayOfStructs = false ∧
+    SupportedCfg 64 cxValueStruct = false :=
+  ⟨counterexamples_unsupported.1, counterexamples_unsupported.2, value_struct_unsupported⟩
 
 /-- The three shapes whose panics were repaired into errors (P02: `P **struct{ A int }`; P05: `dials:"_"`,
 `dialsenv:""`) are inside `SupportedCfg`: `C16_env_total` covers them. -/
